@@ -36,6 +36,7 @@ type checkOpts struct {
 	dump     string
 	seed     int64
 	noReplay bool
+	noCache  bool
 	out      string
 	noBounded bool
 	budget   int
@@ -59,6 +60,7 @@ func main() {
 		fs.StringVar(&o.dump, "dump", "", "directory to dump SMT queries into")
 		fs.StringVar(&o.out, "out", "", "directory for evidence/ and replays/ (default: the verification root)")
 		fs.BoolVar(&o.noReplay, "noreplay", false, "skip replay")
+		fs.BoolVar(&o.noCache, "nocache", false, "do not use the proof cache (/verif/.cache)")
 		fs.BoolVar(&o.noBounded, "nobounded", false, "skip the bounded stand-ins")
 		fs.IntVar(&o.budget, "budget", 0, "per-obligation solver budget in seconds (default 10 quick / 60 thorough)")
 		fs.Parse(os.Args[2:])
@@ -268,6 +270,9 @@ func runCheck(o *checkOpts) int {
 		}
 	}
 	// discharge
+	if !o.noCache {
+		cacheDir = filepath.Join(o.verif, ".cache", "smt")
+	}
 	pre := fullPrelude()
 	results := make([]*obResult, len(jobs))
 	var wg sync.WaitGroup
@@ -278,7 +283,20 @@ func runCheck(o *checkOpts) int {
 			defer wg.Done()
 			sem <- struct{}{}
 			defer func() { <-sem }()
-			oc := discharge(j.q, pre, budget, o.tier == "thorough")
+			var oc *Outcome
+			if len(j.q.Parts) > 0 && splitHint(j.q, pre, o.tier == "thorough", false) {
+				// an earlier run needed the conjunct-by-conjunct route for this very query: go there directly
+				oc = &Outcome{Q: j.q, Status: "undecided"}
+			} else {
+				oc = discharge(j.q, pre, budget, o.tier == "thorough")
+				if oc.Status == "undecided" && len(j.q.Parts) == 0 && !j.q.Ob.Cover {
+					// no verdict within the budget: one more attempt with three times the budget before the
+					// obligation is reported (keeps a loaded machine from turning a slow proof into an alarm)
+					oc2 := discharge(j.q, pre, budget*3, o.tier == "thorough")
+					oc2.SolverS += oc.SolverS
+					oc = oc2
+				}
+			}
 			res := &obResult{Ob: j.q.Ob, Status: oc.Status, By: oc.By, Secs: oc.SolverS, Size: j.q.Size, Outcome: oc}
 			if oc.Status != "discharged" && len(j.q.Parts) > 0 {
 				// conjunctive goal: decide conjunct by conjunct; the whole holds iff every conjunct does
@@ -286,6 +304,11 @@ func runCheck(o *checkOpts) int {
 				var bad []string
 				for _, pq := range j.q.Parts {
 					poc := discharge(pq, pre, budget, o.tier == "thorough")
+					if poc.Status == "undecided" {
+						poc2 := discharge(pq, pre, budget*3, o.tier == "thorough")
+						poc2.SolverS += poc.SolverS
+						poc = poc2
+					}
 					res.Secs += poc.SolverS
 					if poc.Status != "discharged" {
 						all = false
@@ -300,6 +323,7 @@ func runCheck(o *checkOpts) int {
 				}
 				if all {
 					res.Status = "discharged"
+					splitHint(j.q, pre, o.tier == "thorough", true)
 				} else {
 					res.Ob = &Obligation{Name: j.q.Ob.Name, Tags: j.q.Ob.Tags, Func: j.q.Ob.Func, Kind: j.q.Ob.Kind, Pos: j.q.Ob.Pos, Cover: j.q.Ob.Cover,
 						Descr: j.q.Ob.Descr + strings.Join(bad, ";")}
@@ -449,6 +473,7 @@ func runCheck(o *checkOpts) int {
 			"samples":                samples,
 			"failed":                 failedNames(failed),
 			"bounded":                boundedInfo,
+			"proof_cache":            map[string]interface{}{"hits": cacheHits, "misses": cacheMisses, "note": "verdicts memoised for byte-identical queries only (VCs are regenerated from the working tree on every run); run with -nocache to force every solver call"},
 		},
 		"assumptions": standingAssumptions,
 	}
@@ -616,25 +641,64 @@ func violationNoInput(o *checkOpts, what, msg string, start time.Time) int {
 
 // homeProp: untagged (core) obligations of a package are discharged by the check of its
 // home property; every other check that needs them says so in its evidence.
-// homeProps: the properties an untagged (core) obligation of a function belongs to: the structural
-// contracts of a package carry every property that is argued on top of them. The first one is the
-// primary home (used for vacuity covers).
-func homeProps(key string) []string {
+// pkgClass names the package of a function key.
+func pkgClass(key string) string {
 	switch {
 	case strings.Contains(key, "/internal/escape."):
-		return []string{"C01", "C03", "C10"}
+		return "escape"
 	case strings.Contains(key, "/internal/buffer."):
-		return []string{"C01", "C03", "C13"}
+		return "buffer"
 	case strings.Contains(key, "/internal/rfmt"):
-		return []string{"C05", "C02", "C06"}
+		return "rfmt"
 	case strings.Contains(key, "/builder."):
-		return []string{"C09"}
+		return "builder"
 	case strings.Contains(key, "/internal/fmtforward."), strings.Contains(key, "/internal/redact."):
-		return []string{"C14"}
+		return "fmtforward"
 	case strings.Contains(key, "/internal/markers."):
-		return []string{"C07"}
+		return "markers"
 	}
-	return []string{"C08"}
+	return "root"
+}
+
+// propDeps: the packages whose structural (untagged) contracts a property's argument rests on. Verification is
+// modular: a caller assumes its callees' contracts, so a check of property X must also discharge the core
+// obligations of every package X's tagged clauses are proved on top of; otherwise a change that breaks a
+// callee's contract would be invisible to X. The first property listed for a package is its primary home
+// (vacuity covers are reported there).
+var propDeps = map[string][]string{
+	"C01": {"escape", "buffer", "rfmt", "builder", "root"},
+	"C02": {"rfmt", "builder"},
+	"C03": {"escape", "buffer", "rfmt", "builder", "root"},
+	"C05": {"rfmt", "builder"},
+	"C06": {"rfmt"},
+	"C07": {"markers"},
+	"C08": {"rfmt", "builder", "root", "markers", "buffer"},
+	"C09": {"builder", "rfmt", "buffer"},
+	"C10": {"escape", "buffer", "rfmt"},
+	"C12": {"rfmt", "buffer"},
+	"C13": {"buffer", "builder"},
+	"C14": {"fmtforward", "rfmt"},
+	"C15": {"rfmt"},
+	"C16": {"rfmt", "builder"},
+	"C17": {"rfmt"},
+}
+
+var primaryHome = map[string]string{"escape": "C01", "buffer": "C01", "rfmt": "C05", "builder": "C09", "fmtforward": "C14", "markers": "C07", "root": "C08"}
+
+func homeProps(key string) []string {
+	pc := pkgClass(key)
+	out := []string{primaryHome[pc]}
+	for _, p := range sortedKeys(propDeps) {
+		if p == out[0] {
+			continue
+		}
+		for _, d := range propDeps[p] {
+			if d == pc {
+				out = append(out, p)
+			}
+		}
+	}
+	return out
 }
 
 func homeProp(key string) string { return homeProps(key)[0] }
